@@ -147,7 +147,7 @@ func verifyFuncPass(P *Program, DB *ContractDB, fn *ssa.Function, k *FuncContrac
 		// captured variables are cells
 		if pt, ok := fv.Type().Underlying().(*types.Pointer); ok && !isAggregate(pt.Elem()) {
 			fr.addrs[fv] = vc.cellAddr(pt.Elem(), t)
-			env.vars[fv.Name()] = cval{t: vc.read(st, fr.addrs[fv]), typ: pt.Elem(), sort: vc.sortOf(pt.Elem()), addr: fr.addrs[fv]}
+			env.vars[fv.Name()] = cval{t: vc.read(st, fr.addrs[fv]), typ: pt.Elem(), sort: vc.sortOf(pt.Elem()), addr: fr.addrs[fv], cell: true}
 		} else {
 			env.vars[fv.Name()] = cval{t: t, typ: fv.Type(), sort: vc.sortOf(fv.Type())}
 		}
